@@ -217,7 +217,7 @@ Definition h_trap (instr : N) (st : state) : result :=
           end
   | 36 => match putsp_loop LOOP_FOREVER st (R st 0) with
           | Some st1 => Running st1 | None => Diverged end
-  | 37 => Running (emit (set_pc st 65535) BANNER)
+  | 37 => Running (emit_list (set_pc st 65535) BANNER)
   | 38 => Running (emit_list st (fmt_i16 (R st 0)))
   | 39 => Running (emit_list st (print_registers_min st))
   | _ => Exited 238 st
